@@ -152,13 +152,23 @@ def correspondence(rep, rng, tier):
 def _matching(rep, rng, tier):
     from .. import pipeline as P
     P.matching_search(rep, rng, tier, 'C09')
+    # the call part is a function of the START words and the nested lookups only: no other nested record may change it
+    P.window_content_search(rep, rng, tier, 'C09', syscall_names())
 
 
 def replay(path):
     import json
     with open(path) as fd:
         r = json.load(fd)
-    rp = r['replay']
+    rp = r.get('replay') or {}
+    if 'section' not in rp and 'case' not in rp:
+        print('nothing to replay (no failing input was recorded):', r.get('no_longer_checks'))
+        return 1
+    if rp.get('section') in ('window-content', 'matching-records'):
+        from .. import pipeline as P
+        rc = P.replay_search(rp, 'C09', path)
+        if rc is not None:
+            return rc
     if rp.get('section') == 'positions':
         res = position_oracle(rp['decoder'])
         print('oracle:', res)
